@@ -341,7 +341,7 @@ def run(ctx):
             t = gen.rand_tree(rng, 'en', nleaves=n, cats=cats)
         return sanitize(rng, t, 'ptb')
 
-    n_ptb = 260 if q else 2500
+    n_ptb = 260 if q else 2000
     for i in range(n_ptb):
         t = ptb_tree(i)
         line = ptb_of(t)
@@ -398,7 +398,7 @@ def run(ctx):
         add(f'PP {gtree(t)} {gopt(r if st == "ok" else None, lit)}', ('ptb_of', 'no-word', st))
 
     # malformed stream: model and implementation agree on ok(tree) / error
-    for i in range(250 if q else 4000):
+    for i in range(250 if q else 3000):
         if rng.random() < 0.6:
             t = sanitize(rng, gen.rand_tree(rng, 'en', nleaves=rng.randint(1, 3), full_tokens=False, cats=en_pool[:40]), 'ptb')
             s = ptb_of(t)
@@ -443,7 +443,7 @@ def run(ctx):
             ctx.count(f'ja:{kind}:{st}' + (f':{r}' if st == 'err' else ''))
             return st, r
 
-        n_ja = 260 if q else 2500
+        n_ja = 260 if q else 2000
         made = 0
         while made < n_ja:
             n = rng.randint(1, 4 if q else 7)
@@ -503,7 +503,7 @@ def run(ctx):
             add(f'PJ {gtree(t)} {gopt(r if st == "ok" else None, lit)}', ('ja_of', 'no-word', st))
 
         # malformed stream (error-vs-ok agreement; a non-terminating reader counts as an error)
-        for i in range(250 if q else 4000):
+        for i in range(250 if q else 3000):
             if rng.random() < 0.65:
                 t = sanitize(rng, gen.rand_tree(rng, 'ja', nleaves=rng.randint(1, 3), full_tokens=rng.random() < 0.5, cats=ja_pool[:30]), 'ja')
                 s = bank_line(t, rng, True) if rng.random() < 0.3 else ja_of(t)
